@@ -103,6 +103,22 @@ def run_item(it):
                                              "detail": "argument %d (%s) changed: contents %s, metadata %s" % (j, lname if j == k else "contiguous", before[j][0] != after[j][0], before[j][1:] != after[j][1:])})
                     if kw2 != kwobj or sz2 != sizes:
                         findings.append({"kind": "keyword-container-modified", "op": op, "backend": backend, "arg": -1, "layout": lname, "detail": "sizes / options objects changed"})
+            # sizes and options handed over as numpy arrays: they are read-only to einx like every other argument
+            szarr = {n: np.array(v) for n, v in sizes.items()}
+            kwarr = {n: np.array(v) for n, v in kwobj.items()}
+            before = {n: snapshot(a) for n, a in list(szarr.items()) + list(kwarr.items())}
+            for graph in (True, False):
+                try:
+                    with warnings.catch_warnings():
+                        warnings.simplefilter("ignore")
+                        getattr(einx, op)(desc, *[x.copy() for x in ins], backend=backend, **szarr, **kwarr, **({"graph": True} if graph else {}))
+                except Exception:
+                    pass
+                calls += 1
+            after = {n: snapshot(a) for n, a in list(szarr.items()) + list(kwarr.items())}
+            if before != after:
+                findings.append({"kind": "keyword-array-modified", "op": op, "backend": backend, "arg": -1, "layout": "contiguous",
+                                 "detail": "a size / option passed as numpy array changed (contents or flags): %s" % sorted(n for n in before if before[n] != after[n])})
         # solve_* / matches never touch tensors
         try:
             args = [x.copy() for x in ins]
@@ -207,10 +223,15 @@ def nary_records(rep):
     import einx
     recs = []
     x = [np.arange(6.0).reshape(2, 3) + k for k in range(3)]
-    for op in ("add", "subtract", "multiply", "logical_and", "logical_or", "maximum", "less", "equal", "divide", "logaddexp"):
-        for desc in ("a b, a b, a b", "a b, b, a b -> a b", "a b, a b, a b -> b a"):
+    # every public einx callable is tried as an operation on two and three tensors (calls that are rejected are fine):
+    # no list of operation names to keep up to date
+    skip = {"solve", "solve_axes", "solve_shapes", "matches", "check", "set_at", "add_at", "subtract_at"}
+    names = sorted(n for n in dir(einx) if not n.startswith("_") and n not in skip and callable(getattr(einx, n)) and not isinstance(getattr(einx, n), type))
+    rep.extra["public_callables_tried_with_surplus_operands"] = len(names)
+    for op in names:
+        for desc in ("a b, a b, a b", "a b, b, a b -> a b", "a b, a b, a b -> b a", "a b, a b", "a b, a b -> a b"):
             for backend in DC.BACKENDS:
-                args = [a.copy() for a in x]
+                args = [a.copy() for a in x][:desc.split("->")[0].count(",") + 1]
                 if "b, a b ->" in desc and desc.startswith("a b, b,"):
                     args[1] = args[1][0].copy()
                 before = [a.tobytes() for a in args]
